@@ -68,17 +68,7 @@ struct L09 : Listener {
         }
         if (setRefusedNow) {
             ++setRefused;
-            // the parameter must be left as it was: redo it on a parameter that already holds a value
-            ezc3d::ParametersNS::GroupNS::Parameter p("keep", "d"); p.set(std::vector<int>() = {7, 8, 9}, {3}); p.lock();
-            SParam before = takeParam(p);
-            bool threw = false;
-            try {
-                if (sp.type == 0) p.set(sp.ints, sp.dims);
-                else if (sp.type == 1) { std::vector<float> v; for (auto b : sp.floats) v.push_back(bitsToFloat(b)); p.set(v, sp.dims); }
-                else p.set(sp.strs, sp.dims);
-            } catch (const std::range_error &) { threw = true; }
-            if (!threw) { fail(i, op, "second refused set did not throw range_error"); return; }
-            if (paramText(before) != paramText(takeParam(p))) { fail(i, op, "a refused set changed the parameter: " + paramText(takeParam(p))); return; }
+            { std::string m2 = sp.dims.empty() ? std::string() : refusedSetLeavesParameterUnchanged(sp); if (!m2.empty()) { fail(i, op, m2); return; } }
             std::string d = firstDiff(groupsText(pre), groupsText(post));
             if (!d.empty()) fail(i, op, "object changed although the parameter was never handed over: " + d);
             return;
